@@ -276,11 +276,18 @@ class MetricsStoreStub:
 
 
 class TelemetryStub:
+    """contract of the real devices: detaching queries the cluster once more (IngestPipelineStats, DiskUsageStats, ...) and raises a
+    RallyError when the cluster cannot be reached - e.g. after the fatal connection error that is just being reported"""
+    cluster_reachable = True
+
     def on_benchmark_start(self):
         pass
 
     def on_benchmark_stop(self):
-        pass
+        if not self.cluster_reachable:
+            from esrally import exceptions
+
+            raise exceptions.RallyError("A transport error occurred while collecting ingest pipeline stats (cluster unreachable)")
 
 
 class ProgressStub:
